@@ -38,6 +38,8 @@ type dnsEntryObs struct {
 	removeCtx  string
 	ttl        uint32
 	hasTTL     bool
+	ttlMax     uint32 // largest record TTL of the answer (mixed-TTL answers)
+	ttlFirst   uint32 // TTL of the first record
 	refreshed  bool // inserted by a background refresh
 	restored   bool // came from a reload clone: keeps the deadline of its origin
 	origin     *dnsEntryObs
@@ -66,6 +68,41 @@ func (e *dnsEntryObs) deadline(w *dnsWorld) (time.Duration, bool) {
 		ttl = time.Duration(f) * time.Second
 	}
 	return o.insertedAt + ttl, true
+}
+
+// mixedTTL: the answer's records carry different TTLs and no fixed TTL overrides them.
+func (e *dnsEntryObs) mixedTTL(w *dnsWorld) bool {
+	o := e
+	for o.restored && o.origin != nil {
+		o = o.origin
+	}
+	if !o.hasTTL || o.ttlFirst == o.ttl || !o.keyOK {
+		return false
+	}
+	_, fixed := w.cfg.fixed[dnsAllNames[o.key.name]]
+	return !fixed
+}
+
+// deadlineByFirstRecord: the deadline an implementation gets that takes the TTL of
+// the first record for the whole answer (used only to class a finding).
+func (e *dnsEntryObs) deadlineByFirstRecord() time.Duration {
+	o := e
+	for o.restored && o.origin != nil {
+		o = o.origin
+	}
+	return o.insertedAt + time.Duration(o.ttlFirst)*time.Second
+}
+
+// originalDeadlineMax: the latest instant any record of the answer is valid (ignores fixed_domain_ttl).
+func (e *dnsEntryObs) originalDeadlineMax() (time.Duration, bool) {
+	o := e
+	for o.restored && o.origin != nil {
+		o = o.origin
+	}
+	if !o.hasTTL {
+		return 0, false
+	}
+	return o.insertedAt + time.Duration(o.ttlMax)*time.Second, true
 }
 
 // originalDeadline ignores fixed_domain_ttl.
@@ -152,15 +189,14 @@ func (t *dnsCacheTrack) scan() {
 		e := &dnsEntryObs{raw: raw, ptr: c, insertedAt: now, insertStep: step}
 		e.key, e.keyOK = w.parseCacheKey(raw)
 		e.ids, e.ips = w.decodeAnswers(c.Answer)
-		for _, rr := range c.Answer {
-			h := rr.Header()
-			if e.keyOK && (w.nameIndex(h.Name) != e.key.name || h.Rrtype != e.key.qtype) {
-				e.foreign = fmt.Sprintf("record %s %s", h.Name, dnsmessage.TypeToString[h.Rrtype])
+		if e.keyOK {
+			if rr := dnsRecordsBelong(c.Answer, dnsAllNames[e.key.name], e.key.qtype); rr != nil {
+				e.foreign = fmt.Sprintf("record %s %s", rr.Header().Name, dnsmessage.TypeToString[rr.Header().Rrtype])
 			}
 		}
 		for _, id := range e.ids {
 			if a := w.ansByID(id); a != nil {
-				e.ttl, e.hasTTL = a.ttl, true
+				e.ttl, e.ttlMax, e.ttlFirst, e.hasTTL = a.ttl, a.ttlMax, a.ttlFirst, true
 				if a.chain != nil && a.chain.refresh {
 					e.refreshed = true
 				}
